@@ -113,7 +113,7 @@ func workC13(w *run.W) {
 		}
 		for _, pre := range []string{"GET /a\nDescription\n  text\n", "GET /a\nDescription\n  two\n  lines\n\n", "TAG @t\nDescription\ntext\r\n"} {
 			for _, wd := range words {
-				for _, tail := range []string{" x\n", "\n", ""} {
+				for _, tail := range []string{" x\n", "\n", "", "// a\n", "/* a */\n", "# c\n", " // a\n"} {
 					in := pre + "  " + wd + tail
 					L := len(pre) + 2
 					o := impl.Scan(in, 0)
